@@ -404,6 +404,7 @@ def run(ctx):
     ctx.notes.append("templates: %d generated, %d compared, %d mismatches" % (N, len(lines), len(mism)))
     T.c02_copies(ctx, exe, lines, expected)          # the same through a copy of the parsed tag array (round c)
     T.c02_group(ctx, drv, exe, enc)                  # <loop group=> on items with differing member orders (round c)
+    T.c02_narrow_fields(ctx, drv, exe)               # every 8/16-bit tag field at limit-1 / limit / limit+1 (round g)
     ctx.assumptions += ["well-formedness side conditions are those of the generator (see META.note)",
                         "number formatting of reals, sort=, group= are decided by C10 / C15 / C18"]
 
